@@ -144,18 +144,36 @@ def _json_body(headers, body):
         raise Outside('body is not JSON')
 
 
-def abstract(method, path_qs, headers, body, env):
-    """Abstract request or None."""
+def abstract(method, path_qs, headers, body, env, policy='default'):
+    """Abstract request or None.  `policy`: the policy in force - "default"
+    (Apply describes a caller with the admin role; the reshaper needs the
+    service role), "open" (every rule allows everybody) or anything else
+    (outside the alphabet)."""
     try:
-        return _abstract(method, path_qs, headers, body, env)
+        return _abstract(method, path_qs, headers, body, env, policy)
     except Outside:
         return None
 
 
-def _abstract(method, path_qs, headers, body, env):
+def caller_roles(headers):
+    """Roles as the noauth2 middleware derives them."""
     h = {k.lower(): v for k, v in headers.items()}
-    roles = set(x.strip() for x in h.get('x-roles', 'admin').split(','))
-    _need(h.get('x-auth-token') == 'admin' and 'admin' in roles, 'caller')
+    _need('x-auth-token' in h, 'no credentials')
+    # system-scoped tokens are not one of the caller classes of Surface.tla
+    _need('openstack-system-scope' not in h, 'system scope')
+    if 'x-roles' in h:
+        return set(x.strip() for x in h['x-roles'].split(',') if x.strip())
+    return {'admin'} if h['x-auth-token'] == 'admin' else set()
+
+
+def _abstract(method, path_qs, headers, body, env, policy='default'):
+    h = {k.lower(): v for k, v in headers.items()}
+    roles = caller_roles(headers)
+    _need(policy in ('default', 'open'), 'policy')
+    if policy == 'default':
+        _need('admin' in roles, 'caller')
+    else:
+        roles = roles | {'admin', 'service'}
     _need('application/json' in h.get('accept', 'application/json') or h.get('accept') in (None, '*/*'), 'accept')
     v = version(headers)
     parts = urlsplit(path_qs)
@@ -455,8 +473,7 @@ def abstract_ac(path_qs, headers):
 
 def _caller_ok(headers):
     h = {k.lower(): v for k, v in headers.items()}
-    roles = set(x.strip() for x in h.get('x-roles', 'admin').split(','))
-    _need(h.get('x-auth-token') == 'admin' and 'admin' in roles, 'caller')
+    _need('admin' in caller_roles(headers), 'caller')
     _need('application/json' in h.get('accept', 'application/json'), 'accept')
 
 
